@@ -231,13 +231,35 @@ func ruleDispatch(p *Prog, r *Result) {
 					continue // e.g. constant 0 on a path that was not decided by the operator
 				}
 				n++
-				if bo.Op != want {
-					bad = fmt.Sprintf("case %q returns an expression with Go operator %s (must be %s)", lit, bo.Op, want)
+				op := bo.Op
+				x, y := bo.X, bo.Y
+				if leaf.kind != "strcmp" {
+					// a mirrored comparison (right OP' left) is the same comparison
+					xr := mentions(x, func(v ssa.Value) bool { return v == rp }, 8) && !mentions(x, func(v ssa.Value) bool { return v == lp }, 8)
+					yl := mentions(y, func(v ssa.Value) bool { return v == lp }, 8) && !mentions(y, func(v ssa.Value) bool { return v == rp }, 8)
+					if xr && yl && (op == token.LSS || op == token.GTR || op == token.LEQ || op == token.GEQ || op == token.EQL) {
+						x, y, op = y, x, swapOp(op)
+					}
+				}
+				if op != want {
+					bad = fmt.Sprintf("case %q returns an expression with Go operator %s (must be %s)", lit, op, want)
 					continue
 				}
-				x, y := bo.X, bo.Y
 				if leaf.kind == "strcmp" {
 					c, ok := x.(*ssa.Call)
+					if !ok {
+						// 0 OP cmp
+						if c2, ok2 := y.(*ssa.Call); ok2 {
+							if cv, okc := constInt(x); okc && cv == 0 {
+								c, ok = c2, true
+								x, y = y, x
+								if swapOp(bo.Op) != want {
+									bad = fmt.Sprintf("case %q returns a comparison with the wrong direction", lit)
+									continue
+								}
+							}
+						}
+					}
 					if !ok || p.calleeName(&c.Call) != "bytes.Compare" {
 						bad = "string comparison is not decided by bytes.Compare(left, right) against 0"
 						continue
